@@ -1,5 +1,7 @@
 import B6.Model.Osm
 import B6.Lemmas.Osm
+import B6.Model.OsmRings
+import B6.Lemmas.OsmRings
 /-!
 C29 — OSM data maps to features by fixed rules.
 
@@ -244,6 +246,61 @@ theorem reserved_key_before_fix_counterexample :
     geometryLen (modifyOrAdd "path" (.ids ([2, 22, 20].map pointID)) [⟨keyForOSMKeyBeforeFix "point", .str ""⟩]) = 1 ∧
     geometryLen (modifyOrAdd "path" (.ids ([2, 22, 20].map pointID)) [⟨keyForOSMKey "point", .str ""⟩]) = 3 := by
   decide
+
+/-! ### Ring stitching (`osm/polygons.go`, model `B6/Model/OsmRings.lean`) -/
+
+section Rings
+open B6.Model.OsmRings B6.Lemmas.OsmRings
+
+/-- For every way table and member list on which the stitching succeeds: the loops use every member way
+exactly once and nothing else, no loop is empty, and in every loop the ways are joined end to end — each way
+is entered (forwards or backwards) at the node the previous one was left through. -/
+theorem rings_use_each_way_once (ws : List Way) (ms : List Int64) (loops : List (List Int64))
+    (h : rings ws ms = .ok loops) :
+    loops.flatten.Nodup ∧ (∀ x, x ∈ loops.flatten ↔ x ∈ ms) ∧ (∀ l ∈ loops, l ≠ []) ∧
+    (∀ l ∈ loops, isChain ws l = true) := by
+  unfold rings at h
+  split at h
+  · cases h
+  · obtain ⟨r1, r2, _, r4, r5⟩ := group_spec h (by simp) (by simp) (by simp) (fun x hx => hx)
+    refine ⟨r1, fun x => ⟨r4 x, r2 x⟩, ?_, group_chain h (by simp)⟩
+    intro l hl
+    rcases r5 l hl with h' | h'
+    · cases h'
+    · exact h'
+
+/-- The remaining clause — for an input whose ways form disjoint cycles (`disjointCycles`: distinct members,
+every end node shared by exactly two way-ends) every loop is *closed*, i.e. the chain ends at the node it
+started at. NOT proved here (the proof needs a parity invariant over the seen way-ends of every node); the
+correspondence run evaluates `isClosedRing` on the real code's loops for every generated input of the class. -/
+def rings_closed_statement : Prop :=
+  ∀ (ws : List Way) (ms : List Int64) (loops : List (List Int64)),
+    disjointCycles ws ms = true → rings ws ms = .ok loops → ∀ l ∈ loops, isClosedRing ws l = true
+
+/-- a closed ring is a chain that comes back to its first node -/
+theorem closed_iff_chain_returns (ws : List Way) (id : Int64) (rest : List Int64) (a b : Int64)
+    (he : (findWay ws id).bind ends = some (a, b)) :
+    isClosedRing ws (id :: rest) = (thread ws a (id :: rest) == some a) := by
+  simp [isClosedRing, he, closedFrom_eq_thread]
+
+/-- Outside the class the loops need not be closed: ways 1 = [1,2], 2 = [2,3], 3 = [3,2] (a lasso) give the one
+loop [1, 2, 3], which uses every way once and is a chain, but ends at node 2, not at node 1. -/
+theorem rings_lasso_not_closed :
+    rings [⟨1, [1, 2]⟩, ⟨2, [2, 3]⟩, ⟨3, [3, 2]⟩] [1, 2, 3] = .ok [[1, 2, 3]] ∧
+    isClosedRing [⟨1, [1, 2]⟩, ⟨2, [2, 3]⟩, ⟨3, [3, 2]⟩] [1, 2, 3] = false ∧
+    disjointCycles [⟨1, [1, 2]⟩, ⟨2, [2, 3]⟩, ⟨3, [3, 2]⟩] [1, 2, 3] = false := by
+  refine ⟨by rfl, by decide, by decide⟩
+
+/-- non-vacuity: two cycles (a triangle of three ways in mixed directions and a single closed way), members
+shuffled — in the class, two loops, both closed -/
+example :
+    let ws : List Way := [⟨1, [1, 5, 2]⟩, ⟨2, [3, 2]⟩, ⟨3, [3, 1]⟩, ⟨4, [7, 8, 9, 7]⟩]
+    disjointCycles ws [2, 4, 1, 3] = true ∧ rings ws [2, 4, 1, 3] = .ok [[2, 1, 3], [4]] ∧
+    isClosedRing ws [2, 1, 3] = true ∧ isClosedRing ws [4] = true ∧
+    loopNodes ws [2, 1, 3] = some [3, 2, 2, 5, 1, 1, 3] := by
+  refine ⟨by decide, by rfl, by decide, by decide, by decide⟩
+
+end Rings
 
 /-! Non-vacuity: an input with every kind of element; it is defined, and the relation's members are the
 point, the area of the closed way, the path of the open way and the area of the multipolygon. -/
